@@ -119,6 +119,7 @@ func (c07) Gen(r *sim.Rand, c *sim.Case, tier string) {
 	c.OrderSeed = r.Uint64()
 	c.Cfg["imode"] = r.Intn(4) // 0,1 random interleaving; 2 tasks in order; 3 tasks in reverse order
 	c.Cfg["log"] = r.Intn(2)
+	c.Cfg["preempt"] = preemptMean(r)
 }
 
 // ---- observations ----------------------------------------------------------------
@@ -346,7 +347,8 @@ func (c07) Exec(c *sim.Case, env *Env) []sim.Violation {
 		document.VerifResetProcessState()
 		s := sched.New(sim.NewRand(c.SchedSeed ^ 0xC0))
 		simrt.InstallOrder(c.Order, c.OrderSeed^2, len(c.Tasks), s)
-		ioStats := simrt.InstallIO(s, nil) // every file-system call of the library is a yield point: tasks interleave inside Save and Open
+		ioStats := simrt.InstallIO(s, nil)     // every file-system call of the library is a yield point: tasks interleave inside Save and Open
+		simrt.InstallPoints(s, c.C("preempt")) // and, in some runs, function and loop entries of the library (drawn gaps)
 		conc := make([]*c07obs, len(c.Tasks))
 		stats := make([]*sim.Stats, len(c.Tasks))
 		logs := make([]*sim.Log, len(c.Tasks))
@@ -377,6 +379,8 @@ func (c07) Exec(c *sim.Case, env *Env) []sim.Violation {
 			raceLog = env.RaceNew()
 		}
 		env.Stats.ProbeN("context_switches", int64(s.Switches))
+		env.Stats.ProbeN("preemptions_inside_library_calls", int64(s.Preemptions))
+		env.Stats.ProbeN("preemption_points_passed", s.Points)
 		env.Stats.ProbeN("io_yield_points", ioStats.Calls)
 		env.Stats.ProbeN("schedule_picks", int64(len(s.Trace)))
 		env.Log.Event("sched %v", s.Trace)
